@@ -139,6 +139,8 @@ theorem keeps_evalInt (hI : StoreInv g I) (fuel : Nat) :
       | port => exact keeps_fail _
       | command _ _ => exact keeps_fail _
       | integer pv _ => exact ih pv
+      | enumeration pv _ => exact ih pv
+      | boolean _ _ _ => exact keeps_fail _
       | reg r =>
         dsimp only
         cases r.kind with
@@ -178,6 +180,12 @@ theorem keeps_setInt (hI : StoreInv g I) (fuel : Nat) :
         dsimp only
         refine keeps_bind (keeps_invBy hI n) (fun _ => ?_)
         exact keeps_bind (ih pv v) (fun _ => keeps_forEachM (fun c => ih c v) cs)
+      | boolean _ _ _ => exact keeps_fail _
+      | enumeration pv vals =>
+        dsimp only
+        split
+        · exact keeps_bind (keeps_invBy hI n) (fun _ => ih pv v)
+        · exact keeps_fail _
       | reg r =>
         dsimp only
         cases r.kind with
@@ -200,6 +208,248 @@ theorem keeps_setInt (hI : StoreInv g I) (fuel : Nat) :
         | float _ => exact keeps_fail _
         | string => exact keeps_fail _
         | raw => exact keeps_fail _
+
+
+theorem keeps_ite {α : Type} {c : Prop} [Decidable c] {a b : M Store α} (ha : Keeps I a)
+    (hb : Keeps I b) : Keeps I (if c then a else b) := by
+  split <;> assumption
+
+theorem keeps_evalOp (hI : StoreInv g I) (fuel : Nat) (op : Op) :
+    Keeps I (evalOp defaultCache p g fuel op) := by
+  have hev := keeps_evalInt (p := p) hI fuel
+  have hset := keeps_setInt (p := p) hI fuel
+  cases op with
+  | value n =>
+    simp only [evalOp, opValue]
+    cases hn : g[n]? with
+    | none => exact keeps_fail _
+    | some nd =>
+      cases nd with
+      | port => exact keeps_fail _
+      | command _ _ => exact keeps_fail _
+      | integer _ _ => exact keeps_bind (hev n) (fun _ => keeps_pure _)
+      | enumeration _ _ => exact keeps_bind (hev n) (fun _ => keeps_pure _)
+      | boolean pv on off =>
+        exact keeps_bind (hev pv) (fun _ =>
+          keeps_ite (keeps_pure _) (keeps_ite (keeps_pure _) (keeps_fail _)))
+      | reg r =>
+        dsimp only
+        cases r.kind with
+        | int _ _ => exact keeps_bind (hev n) (fun _ => keeps_pure _)
+        | masked _ _ _ _ => exact keeps_bind (hev n) (fun _ => keeps_pure _)
+        | float e =>
+          exact keeps_bind (keeps_withCacheOrRead hI hev hn) (fun _ => keeps_lift _)
+        | string =>
+          exact keeps_bind (keeps_withCacheOrRead hI hev hn) (fun _ => keeps_pure _)
+        | raw => exact keeps_fail _
+  | setValue n v =>
+    simp only [evalOp, opSetValue]
+    cases hn : g[n]? with
+    | none => exact keeps_fail _
+    | some nd =>
+      cases nd with
+      | port => exact keeps_fail _
+      | command _ _ => exact keeps_fail _
+      | integer _ _ =>
+        cases v <;> first | exact keeps_fail _ | exact keeps_bind (hset n _) (fun _ => keeps_pure _)
+      | enumeration _ _ =>
+        cases v <;> first | exact keeps_fail _ | exact keeps_bind (hset n _) (fun _ => keeps_pure _)
+      | boolean pv on off =>
+        cases v <;> first
+          | exact keeps_fail _
+          | exact keeps_bind (keeps_invBy hI n) (fun _ =>
+              keeps_bind (hset pv _) (fun _ => keeps_pure _))
+      | reg r =>
+        dsimp only
+        cases r.kind with
+        | int _ _ =>
+          cases v <;> first | exact keeps_fail _ | exact keeps_bind (hset n _) (fun _ => keeps_pure _)
+        | masked _ _ _ _ =>
+          cases v <;> first | exact keeps_fail _ | exact keeps_bind (hset n _) (fun _ => keeps_pure _)
+        | float e =>
+          cases v <;> first
+            | exact keeps_fail _
+            | exact keeps_bind (keeps_invBy hI n) (fun _ => keeps_bind (keeps_lift _) (fun buf =>
+                keeps_bind (keeps_writeAndCache hI hev hn buf) (fun _ => keeps_pure _)))
+        | string =>
+          cases v <;> first
+            | exact keeps_fail _
+            | exact keeps_bind (keeps_lift _) (fun buf => keeps_bind (keeps_invBy hI n) (fun _ =>
+                keeps_bind (keeps_writeAndCache hI hev hn buf) (fun _ => keeps_pure _)))
+        | raw => cases v <;> exact keeps_fail _
+  | read n l =>
+    simp only [evalOp, opRead]
+    cases hn : g[n]? with
+    | none => exact keeps_fail _
+    | some nd =>
+      cases nd with
+      | reg r =>
+        exact keeps_bind (keeps_regAddr hev r) (fun a =>
+          keeps_bind (keeps_readAndCache hI hn a l) (fun _ => keeps_pure _))
+      | _ => exact keeps_fail _
+  | write n d =>
+    simp only [evalOp, opWrite]
+    cases hn : g[n]? with
+    | none => exact keeps_fail _
+    | some nd =>
+      cases nd with
+      | reg r => exact keeps_bind (keeps_writeAndCache hI hev hn d) (fun _ => keeps_pure _)
+      | _ => exact keeps_fail _
+  | execute n =>
+    simp only [evalOp, opExecute]
+    cases hn : g[n]? with
+    | none => exact keeps_fail _
+    | some nd =>
+      cases nd with
+      | command pv cv =>
+        exact keeps_bind (keeps_invBy hI n) (fun _ => keeps_bind (hset pv cv) (fun _ => keeps_pure _))
+      | _ => exact keeps_fail _
+  | isDone n =>
+    simp only [evalOp, opIsDone]
+    cases hn : g[n]? with
+    | none => exact keeps_fail _
+    | some nd =>
+      cases nd with
+      | command pv cv =>
+        refine keeps_bind (keeps_invOf hI pv) (fun _ => keeps_bind (keeps_lift _) (fun rd => ?_))
+        exact keeps_ite (keeps_bind (hev pv) (fun _ => keeps_pure _)) (keeps_pure _)
+      | _ => exact keeps_fail _
+  | portRead n a l => exact keeps_bind (keeps_portRead n a l) (fun _ => keeps_pure _)
+  | portWrite n a d => exact keeps_bind (keeps_portWrite hI n a d) (fun _ => keeps_pure _)
+  | clearCache => exact keeps_bind (keeps_clearCache hI) (fun _ => keeps_pure _)
+  | address n =>
+    simp only [evalOp, opAddress]
+    cases hn : g[n]? with
+    | none => exact keeps_fail _
+    | some nd =>
+      cases nd with
+      | reg r => exact keeps_bind (keeps_regAddr hev r) (fun _ => keeps_pure _)
+      | _ => exact keeps_fail _
+
+theorem keeps_runHist (hI : StoreInv g I) (h : List Op) :
+    ∀ s : St Store, I s.cache → I (runHist defaultCache p g s h).2.cache := by
+  induction h with
+  | nil => intro s hs; exact hs
+  | cons op rest ih =>
+    intro s hs
+    have h1 : I (run defaultCache p g s op).2.cache := keeps_evalOp hI (fuelOf g) op s hs
+    rw [runHist_cons]
+    cases hr : (run defaultCache p g s op).1 with
+    | panic => exact h1
+    | ok v => exact ih _ h1
+    | err e => exact ih _ h1
+
+/-! ### the instance: no entry for a NoCache register -/
+
+theorem storeInv_noCacheAbsent (g : Graph) : StoreInv g (NoCacheAbsent g) where
+  invBy c n h := fun n' r hn hm a l => by
+    rw [get_invalidateBy]; split
+    · rfl
+    · exact h n' r hn hm a l
+  invOf c n h := fun n' r hn hm a l => by
+    rw [get_invalidateOf]; split
+    · rfl
+    · exact h n' r hn hm a l
+  clear c _ := fun n' r _ _ a l => get_clear _ _ _ _
+  cache c n r a d hn hmode h := fun n' r' hn' hm' a' l' => by
+    rw [get_cache]
+    split
+    · rename_i e
+      obtain ⟨rfl, _, _⟩ := e
+      rw [hn] at hn'
+      cases hn'
+      exact absurd hm' hmode
+    · exact h n' r' hn' hm' a' l'
+
+theorem noCacheAbsent_init (g : Graph) (d : Dev) : NoCacheAbsent g (initDefault g d).cache :=
+  fun n _ _ _ a l => buildStore_get g n a l
+
+/-! ### NoCache registers, operation level (only `NoCacheAbsent` is needed) -/
+
+/-- `with_cache_or_read` on a NoCache register: a successful result was just read from the
+device (newest log entry), after whatever the address evaluation logged. -/
+theorem wcor_nocache (f : Nat) {s s' : St Store} (hA : NoCacheAbsent g s.cache) {n : NodeId}
+    {r : Reg} (hn : g[n]? = some (.reg r)) (hm : r.mode = .noCache) {bs : Bytes}
+    (h : withCacheOrRead defaultCache p g (evalInt defaultCache p g f) n r s = (.ok bs, s')) :
+    ∃ a pre, s'.dev.log = ⟨false, a, r.len, bs, true⟩ :: (pre ++ s.dev.log) := by
+  unfold withCacheOrRead at h
+  obtain ⟨a, ha, h2⟩ := bind_ok_inv h
+  have hA1 : NoCacheAbsent g (regAddr p (evalInt defaultCache p g f) r s).2.cache :=
+    keeps_regAddr (keeps_evalInt (p := p) (storeInv_noCacheAbsent g) f) r s hA
+  obtain ⟨pre, hpre⟩ := grows_regAddr p (grows_evalInt defaultCache p g f) r s
+  rw [cachedRead_nocache hA1 hn hm] at h2
+  obtain ⟨hlog, _⟩ := readAndCache_ok_log h2
+  exact ⟨a, pre, by rw [hlog, hpre]⟩
+
+
+/-- integer-valued read of a NoCache IntReg / MaskedIntReg -/
+theorem evalInt_nocache (f : Nat) {s s' : St Store} (hA : NoCacheAbsent g s.cache) {n : NodeId}
+    {r : Reg} (hn : g[n]? = some (.reg r)) (hm : r.mode = .noCache) {v : Int}
+    (h : evalInt defaultCache p g (f + 1) n s = (.ok v, s')) :
+    ∃ a bs pre, s'.dev.log = ⟨false, a, r.len, bs, true⟩ :: (pre ++ s.dev.log) := by
+  simp only [evalInt, hn] at h
+  cases hk : r.kind with
+  | int e sg =>
+    rw [hk] at h
+    dsimp only at h
+    obtain ⟨bs, hbs, h2⟩ := bind_ok_inv h
+    obtain ⟨_, rfl⟩ := lift_ok_inv h2
+    obtain ⟨a, pre, hlog⟩ := wcor_nocache f hA hn hm (pair_eta hbs)
+    exact ⟨a, bs, pre, hlog⟩
+  | masked e sg lsb msb =>
+    rw [hk] at h
+    dsimp only at h
+    obtain ⟨bs, hbs, h2⟩ := bind_ok_inv h
+    obtain ⟨x, hx, h3⟩ := bind_ok_inv h2
+    obtain ⟨_, hs1⟩ := lift_ok_inv (pair_eta hx)
+    obtain ⟨lw, hlw, h4⟩ := bind_ok_inv h3
+    obtain ⟨_, hs2⟩ := lift_ok_inv (pair_eta hlw)
+    obtain ⟨l, w⟩ := lw
+    obtain ⟨_, hs3⟩ := pure_ok_inv h4
+    obtain ⟨a, pre, hlog⟩ := wcor_nocache f hA hn hm (pair_eta hbs)
+    refine ⟨a, bs, pre, ?_⟩
+    rw [hs3, hs2, hs1]
+    exact hlog
+  | float _ => rw [hk] at h; cases h
+  | string => rw [hk] at h; cases h
+  | raw => rw [hk] at h; cases h
+
+/-- **NoCache, operation level**: a successful `value` of a NoCache register ends with a
+successful device read of the register's length that this operation performed. -/
+theorem opValue_nocache {s s' : St Store} (hA : NoCacheAbsent g s.cache) {n : NodeId}
+    {r : Reg} (hn : g[n]? = some (.reg r)) (hm : r.mode = .noCache) {v : Val}
+    (h : run defaultCache p g s (.value n) = (.ok v, s')) :
+    ∃ a bs pre, s'.dev.log = ⟨false, a, r.len, bs, true⟩ :: (pre ++ s.dev.log) := by
+  simp only [run, evalOp, opValue, hn, fuelOf] at h
+  cases hk : r.kind with
+  | int e sg =>
+    rw [hk] at h
+    dsimp only at h
+    obtain ⟨x, hx, h2⟩ := bind_ok_inv h
+    obtain ⟨_, rfl⟩ := pure_ok_inv h2
+    exact evalInt_nocache g.length hA hn hm (pair_eta hx)
+  | masked e sg lsb msb =>
+    rw [hk] at h
+    dsimp only at h
+    obtain ⟨x, hx, h2⟩ := bind_ok_inv h
+    obtain ⟨_, rfl⟩ := pure_ok_inv h2
+    exact evalInt_nocache g.length hA hn hm (pair_eta hx)
+  | float e =>
+    rw [hk] at h
+    dsimp only at h
+    obtain ⟨bs, hbs, h2⟩ := bind_ok_inv h
+    obtain ⟨_, rfl⟩ := lift_ok_inv h2
+    obtain ⟨a, pre, hlog⟩ := wcor_nocache (g.length + 1) hA hn hm (pair_eta hbs)
+    exact ⟨a, bs, pre, hlog⟩
+  | string =>
+    rw [hk] at h
+    dsimp only at h
+    obtain ⟨bs, hbs, h2⟩ := bind_ok_inv h
+    obtain ⟨_, rfl⟩ := pure_ok_inv h2
+    obtain ⟨a, pre, hlog⟩ := wcor_nocache (g.length + 1) hA hn hm (pair_eta hbs)
+    exact ⟨a, bs, pre, hlog⟩
+  | raw => rw [hk] at h; cases h
+
 
 end Keeps
 end CamVerif.C04
